@@ -137,8 +137,8 @@ class C18(Prop):
             for n, meth, ovh in (("overhang_if_start_removed", "discard_start", "start_overhang"),
                                  ("overhang_if_end_removed", "discard_end", "end_overhang")):
                 if pre[n] is not None:
-                    cp = copy.copy(r)
-                    cp.rows = list(r.rows)
+                    # a deep copy: nothing the trial discard does may reach the object under observation
+                    cp = copy.deepcopy(r)
                     getattr(cp, meth)()
                     agree[n] = [pre[n], getattr(cp, ovh)]
             out["agree"].append(agree)
